@@ -77,4 +77,13 @@ PROPS = {
             {"name": "TestC14", "quick": 1000, "thorough": 25000},
         ],
     },
+    "C18": {
+        "level": "exploration",
+        "tests": [
+            {"name": "TestC18A", "quick": 8000, "thorough": 200000, "shards_quick": 4},
+            {"name": "TestC18B", "quick": 8000, "thorough": 200000, "shards_quick": 4},
+            {"name": "TestC18C", "quick": 20000, "thorough": 500000, "shards_quick": 3},
+            {"name": "TestC18D", "quick": 4000, "thorough": 100000, "shards_quick": 5},
+        ],
+    },
 }
